@@ -309,7 +309,8 @@ def _fp_result(typ: str, x: float, exact: Fraction | None = None, note=''):
     if exact is not None and exact != 0 and abs(exact) < tiny:
         # underflow: 0.0E0, +-2**Emin, a denormalized value, or FOAR0002
         s = -1.0 if exact < 0 else 1.0
-        return Exp(typ, x, alts=(0.0, -0.0, s * tiny), or_codes=('FOAR0002',), note=note + ' underflow')
+        # ... each of them with the sign of the exact result (IEEE 754: a rounded result keeps its sign)
+        return Exp(typ, x, alts=(s * 0.0, s * tiny), or_codes=('FOAR0002',), note=note + ' underflow')
     return Exp(typ, x, note=note)
 
 
@@ -548,6 +549,10 @@ def self_test():
     assert not binop('div', F(1), I(3)).accepts_value(1 / 3)
     chk(binop('+', D('0.1'), D('0.2')), 'decimal', Fraction('0.3'))
     chk(binop('*', B(0.0), I(-1)), 'double', -0.0)
+    e = binop('*', F(-2.0 ** -100), F(2.0 ** -100))        # negative underflow: -0, never +0
+    assert e.type == 'float' and e.accepts_value(-0.0) and not e.accepts_value(0.0) and 'underflow' in e.note
+    e = binop('div', B(5e-324), I(-4))
+    assert e.accepts_value(-0.0) and not e.accepts_value(0.0)
     # 4.4 fn:abs / ceiling / floor / round / round-half-to-even examples
     chk(unop('abs', D('10.5')), 'decimal', Fraction('10.5'))
     chk(unop('abs', D('-10.5')), 'decimal', Fraction('10.5'))
